@@ -1,30 +1,30 @@
-// C12 harness (pure half): the share-group acknowledgement range builder, the staleness filter and the
-// per-record ack state CAS of this tree's kgo, through pkg/kgo/verif_export_c12.go.
+// ackr: C12 pure half inside the scenario binary (one harness per property): the share-group acknowledgement
+// range builder, the staleness filter and the per-record ack state CAS of this tree's kgo, through
+// pkg/kgo/verif_export_c12.go. Every op line starts with the kind token `ackr`.
 //
 //	ops (entry token  off,status,src,epoch,id    range token  first,last,src,epoch,type):
-//	  build <entry>* / <gap>*               -> <range>* r<hasRenew>
-//	  coal  <range>* / <range>              -> <range>*            ("-" when empty)
-//	  stale <self> <epoch> <entry>* / <gap>* [; <entry>* / <gap>*]...
-//	                                        -> <entry>* / <gap>* [; ...] | folded into one field: see fmtStale
-//	  try  <init> <status,strict|reset>*    -> <0|1>* =<final>       sequential calls on one state
-//	  race <init> <status,strict|reset>*    -> <0|1>* =<final>       one goroutine per call, released together
+//	  ackr build <entry>* / <gap>*               -> <range>* r<hasRenew>
+//	  ackr coal  <range>* / <range>              -> <range>*            ("-" when empty)
+//	  ackr stale <self> <epoch> <entry>* / <gap>* [; <entry>* / <gap>*]...
+//	                                             -> nUser nStale ; <entry>* / <gap>* / err [; ...]
+//	  ackr try  <init> <status,strict|reset>*    -> <0|1>* =<final>       sequential calls on one state
+//	  ackr race <init> <status,strict|reset>*    -> <0|1>* =<final>       one goroutine per call, released together
 package main
 
 import (
 	"fmt"
-	"os"
 	"strconv"
 	"strings"
-	"time"
+	"testing"
 
 	"github.com/twmb/franz-go/pkg/kgo"
 	"verifharness/hx"
 )
 
-type entry = kgo.VerifAckEntry
-type rng = kgo.VerifAckRange
+type ackrEntry = kgo.VerifAckEntry
+type ackrRng = kgo.VerifAckRange
 
-func fmtEntries(es []entry) string {
+func ackrFmtEntries(es []ackrEntry) string {
 	var sb []string
 	for _, e := range es {
 		sb = append(sb, fmt.Sprintf("%d,%d,%d,%d,%d", e.Offset, e.Status, e.Source, e.Epoch, e.ID))
@@ -32,7 +32,7 @@ func fmtEntries(es []entry) string {
 	return strings.Join(sb, " ")
 }
 
-func fmtRanges(rs []rng) string {
+func ackrFmtRanges(rs []ackrRng) string {
 	var sb []string
 	for _, r := range rs {
 		sb = append(sb, fmt.Sprintf("%d,%d,%d,%d,%d", r.First, r.Last, r.Source, r.Epoch, r.Type))
@@ -40,7 +40,7 @@ func fmtRanges(rs []rng) string {
 	return strings.Join(sb, " ")
 }
 
-func ints(tok string, n int) []int64 {
+func ackrInts(tok string, n int) []int64 {
 	parts := strings.Split(tok, ",")
 	if len(parts) != n {
 		panic("bad token " + tok)
@@ -52,25 +52,25 @@ func ints(tok string, n int) []int64 {
 	return out
 }
 
-func parseEntries(toks []string) []entry {
-	var es []entry
+func ackrParseEntries(toks []string) []ackrEntry {
+	var es []ackrEntry
 	for _, t := range toks {
-		v := ints(t, 5)
-		es = append(es, entry{Offset: v[0], Status: int32(v[1]), Source: int(v[2]), Epoch: int32(v[3]), ID: int(v[4])})
+		v := ackrInts(t, 5)
+		es = append(es, ackrEntry{Offset: v[0], Status: int32(v[1]), Source: int(v[2]), Epoch: int32(v[3]), ID: int(v[4])})
 	}
 	return es
 }
 
-func parseRanges(toks []string) []rng {
-	var rs []rng
+func ackrParseRanges(toks []string) []ackrRng {
+	var rs []ackrRng
 	for _, t := range toks {
-		v := ints(t, 5)
-		rs = append(rs, rng{First: v[0], Last: v[1], Source: int(v[2]), Epoch: int32(v[3]), Type: int8(v[4])})
+		v := ackrInts(t, 5)
+		rs = append(rs, ackrRng{First: v[0], Last: v[1], Source: int(v[2]), Epoch: int32(v[3]), Type: int8(v[4])})
 	}
 	return rs
 }
 
-func splitAt(toks []string, sep string) [][]string {
+func ackrSplitAt(toks []string, sep string) [][]string {
 	out := [][]string{nil}
 	for _, t := range toks {
 		if t == sep {
@@ -84,25 +84,25 @@ func splitAt(toks []string, sep string) [][]string {
 
 // ---------------------------------------------------------------- generator
 
-type gen struct {
+type ackrGen struct {
 	r      *hx.Rng
 	nextID int
 }
 
-func (g *gen) id() int { g.nextID++; return g.nextID }
+func (g *ackrGen) id() int { g.nextID++; return g.nextID }
 
-// emitBuild prints one build op. Entries with the same id carry the same values.
-func emitBuild(es []entry, gaps []rng) {
-	hx.Emit("build %s / %s", fmtEntries(es), fmtRanges(gaps))
+// ackrEmitBuild prints one build op. Entries with the same id carry the same values.
+func ackrEmitBuild(es []ackrEntry, gaps []ackrRng) {
+	hx.Emit("ackr build %s / %s", ackrFmtEntries(es), ackrFmtRanges(gaps))
 }
 
-func (g *gen) shuffleE(es []entry) {
+func (g *ackrGen) shuffleE(es []ackrEntry) {
 	for i := len(es) - 1; i > 0; i-- {
 		j := g.r.Intn(i + 1)
 		es[i], es[j] = es[j], es[i]
 	}
 }
-func (g *gen) shuffleR(rs []rng) {
+func (g *ackrGen) shuffleR(rs []ackrRng) {
 	for i := len(rs) - 1; i > 0; i-- {
 		j := g.r.Intn(i + 1)
 		rs[i], rs[j] = rs[j], rs[i]
@@ -112,10 +112,10 @@ func (g *gen) shuffleR(rs []rng) {
 // structured: what the client produces. A partition's offset line is cut into acquired blocks; each block is
 // either delivered records (user entries, acked with a mix of statuses, some renew-then-terminal duplicates,
 // some still pending = status 0) or a hole (gap range type 0, or release 2 after a decode error).
-func (g *gen) structured(maxBlocks int) ([]entry, []rng) {
+func (g *ackrGen) structured(maxBlocks int) ([]ackrEntry, []ackrRng) {
 	r := g.r
-	var es []entry
-	var gaps []rng
+	var es []ackrEntry
+	var gaps []ackrRng
 	off := r.Range(0, 50)
 	if r.Chance(10) {
 		off = r.Range(1<<40, 1<<41)
@@ -141,7 +141,7 @@ func (g *gen) structured(maxBlocks int) ([]entry, []rng) {
 			if r.Chance(3) {
 				n = r.Range(1, 1<<33)
 			}
-			gaps = append(gaps, rng{First: off, Last: off + n - 1, Source: src, Epoch: epoch, Type: t})
+			gaps = append(gaps, ackrRng{First: off, Last: off + n - 1, Source: src, Epoch: epoch, Type: t})
 			off += n
 			continue
 		}
@@ -155,7 +155,7 @@ func (g *gen) structured(maxBlocks int) ([]entry, []rng) {
 			if r.Chance(8) {
 				st = 0
 			}
-			e := entry{ID: g.id(), Offset: off + i, Status: st, Source: src, Epoch: epoch}
+			e := ackrEntry{ID: g.id(), Offset: off + i, Status: st, Source: src, Epoch: epoch}
 			es = append(es, e)
 			if r.Chance(15) { // renew then terminal: the same state appended twice
 				es = append(es, e)
@@ -181,13 +181,13 @@ func (g *gen) structured(maxBlocks int) ([]entry, []rng) {
 
 // malformed: overlapping gaps, gaps over entries, inverted ranges, negative offsets, two states at one offset
 // with different statuses (redelivery), odd statuses.
-func (g *gen) malformed() ([]entry, []rng) {
+func (g *ackrGen) malformed() ([]ackrEntry, []ackrRng) {
 	r := g.r
-	var es []entry
-	var gaps []rng
+	var es []ackrEntry
+	var gaps []ackrRng
 	ne, ng := r.Intn(6), r.Intn(4)
 	for i := 0; i < ne; i++ {
-		e := entry{ID: g.id(), Offset: r.Range(-2, 8), Status: int32(r.Range(0, 6)), Source: r.Intn(2), Epoch: int32(r.Range(0, 2))}
+		e := ackrEntry{ID: g.id(), Offset: r.Range(-2, 8), Status: int32(r.Range(0, 6)), Source: r.Intn(2), Epoch: int32(r.Range(0, 2))}
 		es = append(es, e)
 		if r.Chance(20) {
 			es = append(es, e)
@@ -196,52 +196,52 @@ func (g *gen) malformed() ([]entry, []rng) {
 	for i := 0; i < ng; i++ {
 		f := r.Range(-2, 8)
 		l := f + r.Range(-1, 4)
-		gaps = append(gaps, rng{First: f, Last: l, Source: r.Intn(2), Epoch: int32(r.Range(0, 2)), Type: int8(r.Range(0, 4))})
+		gaps = append(gaps, ackrRng{First: f, Last: l, Source: r.Intn(2), Epoch: int32(r.Range(0, 2)), Type: int8(r.Range(0, 4))})
 	}
 	return es, gaps
 }
 
-func (g *gen) genBuild(a hx.Args) {
+func (g *ackrGen) genBuild(a hx.Args) {
 	for i := 0; i < a.N(6000, 120000); i++ {
 		k := g.r.Intn(100)
 		switch {
 		case k < 80:
 			es, gaps := g.structured(6)
-			emitBuild(es, gaps)
+			ackrEmitBuild(es, gaps)
 		case k < 88: // long inputs: slices.SortFunc leaves insertion sort above 12 elements
 			es, gaps := g.structured(30)
-			emitBuild(es, gaps)
+			ackrEmitBuild(es, gaps)
 		default:
 			es, gaps := g.malformed()
-			emitBuild(es, gaps)
+			ackrEmitBuild(es, gaps)
 		}
 	}
 }
 
 // exhaustive small scope (thorough): up to two entries over offsets 0..3 with statuses {0,1,2,4} (plus three
 // entries with statuses {1,2}), up to two gaps among the intervals of 0..3 with types {0,2}; one source and epoch.
-func genExhaustive() {
-	var entrySets [][]entry
-	var pool []entry
+func ackrGenExhaustive() {
+	var entrySets [][]ackrEntry
+	var pool []ackrEntry
 	for off := int64(0); off < 4; off++ {
 		for _, st := range []int32{0, 1, 2, 4} {
-			pool = append(pool, entry{Offset: off, Status: st, Epoch: 1})
+			pool = append(pool, ackrEntry{Offset: off, Status: st, Epoch: 1})
 		}
 	}
 	entrySets = append(entrySets, nil)
 	for _, a := range pool {
-		entrySets = append(entrySets, []entry{a})
+		entrySets = append(entrySets, []ackrEntry{a})
 		for _, b := range pool {
 			if a.Offset == b.Offset && a.Status != b.Status {
 				continue // same record: one state, one status
 			}
-			entrySets = append(entrySets, []entry{a, b})
+			entrySets = append(entrySets, []ackrEntry{a, b})
 		}
 	}
-	var pool2 []entry
+	var pool2 []ackrEntry
 	for off := int64(0); off < 4; off++ {
 		for _, st := range []int32{1, 2} {
-			pool2 = append(pool2, entry{Offset: off, Status: st, Epoch: 1})
+			pool2 = append(pool2, ackrEntry{Offset: off, Status: st, Epoch: 1})
 		}
 	}
 	for _, a := range pool2 {
@@ -250,29 +250,29 @@ func genExhaustive() {
 				if (a.Offset == b.Offset && a.Status != b.Status) || (a.Offset == c.Offset && a.Status != c.Status) || (b.Offset == c.Offset && b.Status != c.Status) {
 					continue
 				}
-				entrySets = append(entrySets, []entry{a, b, c})
+				entrySets = append(entrySets, []ackrEntry{a, b, c})
 			}
 		}
 	}
-	var gpool []rng
+	var gpool []ackrRng
 	for f := int64(0); f < 4; f++ {
 		for l := f; l < 4; l++ {
 			for _, t := range []int8{0, 2} {
-				gpool = append(gpool, rng{First: f, Last: l, Epoch: 1, Type: t})
+				gpool = append(gpool, ackrRng{First: f, Last: l, Epoch: 1, Type: t})
 			}
 		}
 	}
-	gapSets := [][]rng{nil}
+	gapSets := [][]ackrRng{nil}
 	for _, a := range gpool {
-		gapSets = append(gapSets, []rng{a})
+		gapSets = append(gapSets, []ackrRng{a})
 		for _, b := range gpool {
-			gapSets = append(gapSets, []rng{a, b})
+			gapSets = append(gapSets, []ackrRng{a, b})
 		}
 	}
 	for _, es := range entrySets {
 		// ids: equal (offset,status) pairs are the same state
 		ids := map[[2]int64]int{}
-		es2 := make([]entry, len(es))
+		es2 := make([]ackrEntry, len(es))
 		for i, e := range es {
 			k := [2]int64{e.Offset, int64(e.Status)}
 			if _, ok := ids[k]; !ok {
@@ -282,25 +282,25 @@ func genExhaustive() {
 			es2[i] = e
 		}
 		for _, gs := range gapSets {
-			emitBuild(es2, gs)
+			ackrEmitBuild(es2, gs)
 		}
 	}
 }
 
-func (g *gen) genCoal(a hx.Args) {
+func (g *ackrGen) genCoal(a hx.Args) {
 	r := g.r
 	for i := 0; i < a.N(1500, 30000); i++ {
-		var out []rng
+		var out []ackrRng
 		off := r.Range(0, 20)
 		for j := r.Intn(4); j > 0; j-- {
 			n := r.Range(1, 4)
-			out = append(out, rng{First: off, Last: off + n - 1, Source: r.Intn(2), Epoch: int32(r.Range(1, 2)), Type: int8(r.Range(0, 4))})
+			out = append(out, ackrRng{First: off, Last: off + n - 1, Source: r.Intn(2), Epoch: int32(r.Range(1, 2)), Type: int8(r.Range(0, 4))})
 			off += n + r.Range(0, 1)
 		}
-		nr := rng{First: off, Last: off + r.Range(0, 3), Source: r.Intn(2), Epoch: int32(r.Range(1, 2)), Type: int8(r.Range(0, 4))}
+		nr := ackrRng{First: off, Last: off + r.Range(0, 3), Source: r.Intn(2), Epoch: int32(r.Range(1, 2)), Type: int8(r.Range(0, 4))}
 		if len(out) > 0 && r.Chance(60) { // mergeable except for at most one attribute
 			last := out[len(out)-1]
-			nr = rng{First: last.Last + 1, Last: last.Last + 1 + r.Range(0, 3), Source: last.Source, Epoch: last.Epoch, Type: last.Type}
+			nr = ackrRng{First: last.Last + 1, Last: last.Last + 1 + r.Range(0, 3), Source: last.Source, Epoch: last.Epoch, Type: last.Type}
 			switch r.Intn(6) {
 			case 0:
 				nr.Type = int8(r.Range(0, 4))
@@ -315,19 +315,19 @@ func (g *gen) genCoal(a hx.Args) {
 				}
 			}
 		}
-		hx.Emit("coal %s / %s", fmtRanges(out), fmtRanges([]rng{nr}))
+		hx.Emit("ackr coal %s / %s", ackrFmtRanges(out), ackrFmtRanges([]ackrRng{nr}))
 	}
 }
 
-func (g *gen) genStale(a hx.Args) {
+func (g *ackrGen) genStale(a hx.Args) {
 	r := g.r
 	for i := 0; i < a.N(1500, 30000); i++ {
 		self, epoch := r.Intn(3), int32(r.Range(0, 4))
 		nd := 1 + r.Intn(3)
 		var parts []string
 		for d := 0; d < nd; d++ {
-			var es []entry
-			var gaps []rng
+			var es []ackrEntry
+			var gaps []ackrRng
 			off := r.Range(0, 30)
 			for j := r.Intn(6); j > 0; j-- {
 				src, ep := self, int32(r.Range(0, int64(epoch)))
@@ -339,7 +339,7 @@ func (g *gen) genStale(a hx.Args) {
 				case 2:
 					src, ep = (self+2)%3, epoch+1
 				}
-				es = append(es, entry{ID: g.id(), Offset: off, Status: int32(r.Range(0, 4)), Source: src, Epoch: ep})
+				es = append(es, ackrEntry{ID: g.id(), Offset: off, Status: int32(r.Range(0, 4)), Source: src, Epoch: ep})
 				off += r.Range(1, 3)
 			}
 			for j := r.Intn(3); j > 0; j-- {
@@ -351,16 +351,16 @@ func (g *gen) genStale(a hx.Args) {
 					ep = epoch + 1
 				}
 				n := r.Range(1, 3)
-				gaps = append(gaps, rng{First: off, Last: off + n - 1, Source: src, Epoch: ep, Type: int8(r.Intn(3))})
+				gaps = append(gaps, ackrRng{First: off, Last: off + n - 1, Source: src, Epoch: ep, Type: int8(r.Intn(3))})
 				off += n
 			}
-			parts = append(parts, fmtEntries(es)+" / "+fmtRanges(gaps))
+			parts = append(parts, ackrFmtEntries(es)+" / "+ackrFmtRanges(gaps))
 		}
-		hx.Emit("stale %d %d %s", self, epoch, strings.Join(parts, " ; "))
+		hx.Emit("ackr stale %d %d %s", self, epoch, strings.Join(parts, " ; "))
 	}
 }
 
-func fmtTryOps(ops []kgo.VerifTryAckOp) string {
+func ackrFmtTryOps(ops []kgo.VerifTryAckOp) string {
 	var sb []string
 	for _, o := range ops {
 		if o.Reset {
@@ -372,7 +372,7 @@ func fmtTryOps(ops []kgo.VerifTryAckOp) string {
 	return strings.Join(sb, " ")
 }
 
-func (g *gen) tryOps(n int) []kgo.VerifTryAckOp {
+func (g *ackrGen) tryOps(n int) []kgo.VerifTryAckOp {
 	r := g.r
 	var ops []kgo.VerifTryAckOp
 	for j := 0; j < n; j++ {
@@ -390,7 +390,7 @@ func (g *gen) tryOps(n int) []kgo.VerifTryAckOp {
 	return ops
 }
 
-func (g *gen) genTry(a hx.Args) {
+func (g *ackrGen) genTry(a hx.Args) {
 	r := g.r
 	// exhaustive: every sequence of up to 3 calls from every initial status 0..4
 	var alpha []kgo.VerifTryAckOp
@@ -400,12 +400,12 @@ func (g *gen) genTry(a hx.Args) {
 	alpha = append(alpha, kgo.VerifTryAckOp{Reset: true})
 	for init := 0; init <= 4; init++ {
 		for _, x := range alpha {
-			hx.Emit("try %d %s", init, fmtTryOps([]kgo.VerifTryAckOp{x}))
+			hx.Emit("ackr try %d %s", init, ackrFmtTryOps([]kgo.VerifTryAckOp{x}))
 			for _, y := range alpha {
-				hx.Emit("try %d %s", init, fmtTryOps([]kgo.VerifTryAckOp{x, y}))
+				hx.Emit("ackr try %d %s", init, ackrFmtTryOps([]kgo.VerifTryAckOp{x, y}))
 				if a.Tier == "thorough" {
 					for _, z := range alpha {
-						hx.Emit("try %d %s", init, fmtTryOps([]kgo.VerifTryAckOp{x, y, z}))
+						hx.Emit("ackr try %d %s", init, ackrFmtTryOps([]kgo.VerifTryAckOp{x, y, z}))
 					}
 				}
 			}
@@ -416,25 +416,25 @@ func (g *gen) genTry(a hx.Args) {
 		if r.Chance(20) {
 			init = r.Intn(5)
 		}
-		hx.Emit("try %d %s", init, fmtTryOps(g.tryOps(2+r.Intn(7))))
+		hx.Emit("ackr try %d %s", init, ackrFmtTryOps(g.tryOps(2+r.Intn(7))))
 	}
 	for i := 0; i < a.N(1500, 40000); i++ {
 		init := 0
 		if r.Chance(20) {
 			init = 4
 		}
-		hx.Emit("race %d %s", init, fmtTryOps(g.tryOps(2+r.Intn(15))))
+		hx.Emit("ackr race %d %s", init, ackrFmtTryOps(g.tryOps(2+r.Intn(15))))
 	}
 }
 
-func doGen(a hx.Args) {
-	g := &gen{r: hx.NewRng(a.Seed)}
+func genAckr(a hx.Args) {
+	g := &ackrGen{r: hx.NewRng(a.Seed)}
 	// the §8-d shape first, so that it is always among the cases
-	emitBuild([]entry{{ID: 1, Offset: 10, Status: 1, Epoch: 1}, {ID: 2, Offset: 11, Status: 1, Epoch: 1}}, nil)
-	emitBuild([]entry{{ID: 1, Offset: 10, Status: 1, Epoch: 1}, {ID: 2, Offset: 11, Status: 1, Epoch: 1}}, []rng{{First: 12, Last: 14, Epoch: 1}})
+	ackrEmitBuild([]ackrEntry{{ID: 1, Offset: 10, Status: 1, Epoch: 1}, {ID: 2, Offset: 11, Status: 1, Epoch: 1}}, nil)
+	ackrEmitBuild([]ackrEntry{{ID: 1, Offset: 10, Status: 1, Epoch: 1}, {ID: 2, Offset: 11, Status: 1, Epoch: 1}}, []ackrRng{{First: 12, Last: 14, Epoch: 1}})
 	g.genBuild(a)
 	if a.Tier == "thorough" {
-		genExhaustive()
+		ackrGenExhaustive()
 	}
 	g.genCoal(a)
 	g.genStale(a)
@@ -443,85 +443,89 @@ func doGen(a hx.Args) {
 
 // ---------------------------------------------------------------- run
 
-func parseTryOps(toks []string) []kgo.VerifTryAckOp {
+func ackrParseTryOps(toks []string) []kgo.VerifTryAckOp {
 	var ops []kgo.VerifTryAckOp
 	for _, t := range toks {
 		if t == "reset" {
 			ops = append(ops, kgo.VerifTryAckOp{Reset: true})
 			continue
 		}
-		v := ints(t, 2)
+		v := ackrInts(t, 2)
 		ops = append(ops, kgo.VerifTryAckOp{Status: int8(v[0]), Strict: v[1] == 1})
 	}
 	return ops
 }
 
-func dash(s string) string {
+func ackrDash(s string) string {
 	if s == "" {
 		return "-"
 	}
 	return s
 }
 
-func run() {
-	hx.RunLines(20*time.Second, func(t []string) string {
+func runAckr(_ *testing.T, t []string) string {
+	if len(t) < 2 || t[0] != "ackr" {
+		return "bad-op"
+	}
+	t = t[1:]
+	{
 		switch t[0] {
 		case "build":
-			p := splitAt(t[1:], "/")
+			p := ackrSplitAt(t[1:], "/")
 			if len(p) != 2 {
 				return "bad-op"
 			}
-			es, gaps := parseEntries(p[0]), parseRanges(p[1])
+			es, gaps := ackrParseEntries(p[0]), ackrParseRanges(p[1])
 			out, hr := kgo.VerifBuildAckRanges(es, gaps)
 			hx.St.Inc("op.build")
-			hx.St.Inc("build.entries." + bucket(len(es)))
-			hx.St.Inc("build.gaps." + bucket(len(gaps)))
-			hx.St.Inc("build.out." + bucket(len(out)))
+			hx.St.Inc("build.entries." + ackrBucket(len(es)))
+			hx.St.Inc("build.gaps." + ackrBucket(len(gaps)))
+			hx.St.Inc("build.out." + ackrBucket(len(out)))
 			if hr {
 				hx.St.Inc("build.hasRenew")
 			}
-			s := fmtRanges(out)
+			s := ackrFmtRanges(out)
 			if s != "" {
 				s += " "
 			}
 			return s + "r" + hx.B(hr)
 		case "coal":
-			p := splitAt(t[1:], "/")
+			p := ackrSplitAt(t[1:], "/")
 			if len(p) != 2 || len(p[1]) != 1 {
 				return "bad-op"
 			}
-			in := parseRanges(p[0])
-			out := kgo.VerifCoalesceAppendRange(in, parseRanges(p[1])[0])
+			in := ackrParseRanges(p[0])
+			out := kgo.VerifCoalesceAppendRange(in, ackrParseRanges(p[1])[0])
 			hx.St.Inc("op.coal")
 			if len(out) == len(in) && len(in) > 0 {
 				hx.St.Inc("coal.merged")
 			} else {
 				hx.St.Inc("coal.appended")
 			}
-			return dash(fmtRanges(out))
+			return ackrDash(ackrFmtRanges(out))
 		case "stale":
 			self, epoch := int(hx.Atoi(t[1])), int32(hx.Atoi(t[2]))
-			var es [][]entry
-			var gs [][]rng
-			for _, d := range splitAt(t[3:], ";") {
-				p := splitAt(d, "/")
+			var es [][]ackrEntry
+			var gs [][]ackrRng
+			for _, d := range ackrSplitAt(t[3:], ";") {
+				p := ackrSplitAt(d, "/")
 				if len(p) != 2 {
 					return "bad-op"
 				}
-				es = append(es, parseEntries(p[0]))
-				gs = append(gs, parseRanges(p[1]))
+				es = append(es, ackrParseEntries(p[0]))
+				gs = append(gs, ackrParseRanges(p[1]))
 			}
 			kept, kgaps, nu, ns, errs := kgo.VerifFilterStaleEntries(self, epoch, es, gs)
 			hx.St.Inc("op.stale")
 			var parts []string
 			for i := range kept {
-				hx.St.Inc("stale.err." + dash(errs[i]))
-				parts = append(parts, dash(fmtEntries(kept[i]))+" / "+dash(fmtRanges(kgaps[i]))+" / "+dash(errs[i]))
+				hx.St.Inc("stale.err." + ackrDash(errs[i]))
+				parts = append(parts, ackrDash(ackrFmtEntries(kept[i]))+" / "+ackrDash(ackrFmtRanges(kgaps[i]))+" / "+ackrDash(errs[i]))
 			}
 			return fmt.Sprintf("%d %d ; %s", nu, ns, strings.Join(parts, " ; "))
 		case "try", "race":
 			init := int32(hx.Atoi(t[1]))
-			ops := parseTryOps(t[2:])
+			ops := ackrParseTryOps(t[2:])
 			res, final := kgo.VerifTryAck(init, ops, t[0] == "race")
 			hx.St.Inc("op." + t[0])
 			hx.St.Inc(t[0] + ".final." + strconv.Itoa(int(final)))
@@ -537,10 +541,10 @@ func run() {
 			return strings.Join(sb, " ") + " =" + strconv.Itoa(int(final))
 		}
 		return "bad-op"
-	})
+	}
 }
 
-func bucket(n int) string {
+func ackrBucket(n int) string {
 	switch {
 	case n == 0:
 		return "0"
@@ -552,18 +556,5 @@ func bucket(n int) string {
 		return "7-12"
 	default:
 		return "13+"
-	}
-}
-
-func main() {
-	a := hx.Parse()
-	switch a.Mode {
-	case "gen":
-		doGen(a)
-		hx.Flush()
-	case "run":
-		run()
-	default:
-		os.Exit(2)
 	}
 }
